@@ -27,6 +27,33 @@ Theorem C08_history_independent :
       files (init) s.
 Proof. exact history_independent_steps. Qed.
 
+(* files may also change between runs, as long as every change keeps a
+   position that was FOUND where it is; then a run gives what a fresh process
+   gives on the files as they are now *)
+Theorem C08_history_independent_changing_files :
+  forall (content results : Type) (compute : content -> option Z)
+         (fallback : content -> Z)
+         (search : (Z -> bool) -> Z -> content -> results)
+         (ends_open : (Z -> bool) -> Z -> content -> Z -> bool)
+         (ext : content -> content -> Prop),
+  (forall c c' o, ext c c' -> compute c = Some o -> compute c' = Some o) ->
+  forall files h s,
+  changes_ok content ext files h ->
+  let '(files', k) := run_events content results compute fallback search true
+                                 true ends_open files (init) h in
+  step_results content results compute fallback search true true ends_open
+               files' k s
+  = step_results content results compute fallback search true true ends_open
+                 files' (init) s.
+Proof. exact history_independent_changing. Qed.
+
+(* append-only growth of a log by whole lines is such a change: the first
+   in-window line, once it exists, stays the first *)
+Theorem C08_append_only_growth_keeps_found_position :
+  forall since c c' o,
+  grows c c' -> first_in since 0 c = Some o -> first_in since 0 c' = Some o.
+Proof. exact growth_keeps_found. Qed.
+
 (* --- the two repaired defects, as refutations of the legacy switches --- *)
 (* concrete instance: contents are numbers; the seek finds the content's
    value; a result is (position read from, was definition 0 open at start);
@@ -100,5 +127,6 @@ Theorem C08_cache_discipline :
 Proof. vm_compute. split; reflexivity. Qed.
 
 Print Assumptions C08_history_independent.
+Print Assumptions C08_history_independent_changing_files.
 Print Assumptions C08_legacy_cache_without_seek_refuted.
 Print Assumptions C08_cache_discipline.
